@@ -8,33 +8,130 @@ and `_set_name_and_type` on the entries of the domain.
 namespace DocRT
 open Py Doc DocSplit DocUtils
 
+theorem find_none_of_not_contains (s p : Str) (h : contains s p = false) : find s p = none := by
+  have key : ∀ (s : Str) (i : Nat), contains s p = false → findFrom p s i = none := by
+    intro s
+    induction s with
+    | nil => intro i h; simp only [contains] at h; simp [findFrom, h]
+    | cons c cs ih =>
+      intro i h
+      simp only [contains, Bool.or_eq_false_iff] at h
+      simp only [findFrom, h.1, Bool.false_eq_true, if_false]
+      exact ih (i + 1) h.2
+  exact key s 0 h
+
+theorem contains_prefix_false (a b p : Str) (h : contains (a ++ b) p = false) : contains a p = false := by
+  cases hc : contains a p with
+  | false => rfl
+  | true => rw [contains_append_left' a b p hc] at h; cases h
+
+/-- the parenthesised announce patterns contain neither a full stop nor a comma -/
+theorem parenVariants_chars : ∀ w ∈ announceVariants, '.' ∉ ('(' :: lower w) ∧ ',' ∉ ('(' :: lower w) := by decide
+
+theorem lower_cons (c : Char) (s : Str) : lower (c :: s) = lowerC c :: lower s := rfl
+
+/-- **no parenthesised announce in the emitted line** when there is none in the description -/
+theorem hasParenAnnounce_emitted (d r : Str)
+    (hd : ∀ w ∈ announceVariants, contains (lower d) ('(' :: lower w) = false) (hr : '(' ∉ lower r) :
+    hasParenAnnounce (C01.baseOf d ++ defaultsTo ++ r) = false := by
+  unfold hasParenAnnounce
+  have : locateVariant (C01.baseOf d ++ defaultsTo ++ r) (announceVariants.map (fun v => '(' :: v)) = none := by
+    apply C01.locateVariant_none
+    intro v hv
+    obtain ⟨w, hw, rfl⟩ := List.mem_map.mp hv
+    have hl : lower ('(' :: w) = '(' :: lower w := by rw [lower_cons]; congr 1
+    rw [hl]
+    apply find_none_of_not_contains
+    obtain ⟨hdot, hcomma⟩ := parenVariants_chars w hw
+    have hZ : ∀ (e : Char) (hne : e ≠ '('), contains (e :: (lower defaultsTo ++ lower r)) ('(' :: lower w) = false := by
+      intro e hne
+      apply contains_false_of_notin
+      intro hm
+      simp only [List.mem_cons, List.mem_append] at hm
+      rcases hm with h | h | h
+      · exact hne h.symm
+      · revert h; rw [C01.lower_defaultsTo]; decide
+      · exact hr h
+    rw [C01.lower_append, C01.lower_append]
+    unfold C01.baseOf
+    cases hg : d.getLast? with
+    | none =>
+      simp only [C01.lower_append, List.append_assoc]
+      exact contains_append_notin (lower d) _ _ '.' hdot (hd w hw) (hZ '.' (by decide))
+    | some c =>
+      simp only []
+      split
+      · rename_i hc
+        obtain ⟨ys, rfl⟩ := List.getLast?_eq_some_iff.mp hg
+        have hlc : lower (ys ++ [c]) = lower ys ++ [c] := by
+          rw [C01.lower_append]
+          simp only [Bool.or_eq_true, beq_iff_eq] at hc
+          rcases hc with rfl | rfl <;> rfl
+        have hdw := hd w hw
+        rw [hlc] at hdw ⊢
+        simp only [List.append_assoc, List.singleton_append]
+        simp only [Bool.or_eq_true, beq_iff_eq] at hc
+        refine contains_append_notin (lower ys) _ _ c ?_ (contains_prefix_false _ _ _ hdw) (hZ c ?_)
+        · rcases hc with rfl | rfl
+          · exact hdot
+          · exact hcomma
+        · rcases hc with rfl | rfl <;> decide
+      · simp only [C01.lower_append, List.append_assoc]
+        exact contains_append_notin (lower d) _ _ '.' hdot (hd w hw) (hZ '.' (by decide))
+  rw [this]; rfl
+
+/-- the announce phrase is located where the emitter put it (`C01.locate_emitted` without the parenthesis clause) -/
+theorem locate_emitted' (b val : Str) (hb : NoEarly C01.ann (lower b ++ [' '])) :
+    locateVariant (b ++ defaultsTo ++ val) announceVariants = some (b.length + 1, b.length + 1 + 12) := by
+  have hvar : announceVariants = C01.ann :: announceVariants.tail := by decide
+  rw [hvar]
+  unfold locateVariant
+  have hlen : ¬ (C01.ann.length > (b ++ defaultsTo ++ val).length) := by
+    simp only [List.length_append]
+    have : C01.ann.length = 12 := by decide
+    have : defaultsTo.length = 13 := by decide
+    omega
+  simp only [hlen, if_false]
+  have hl : lower (b ++ defaultsTo ++ val) = (lower b ++ [' ']) ++ C01.ann ++ lower val := by
+    rw [C01.lower_append, C01.lower_append, C01.lower_defaultsTo]; simp
+  rw [hl, C01.lower_ann, find_append C01.ann (lower b ++ [' ']) (lower val) (by decide) hb]
+  have : (lower b).length = b.length := by unfold lower; simp
+  simp only [List.length_append, List.length_cons, List.length_nil, this]
+  have : C01.ann.length = 12 := by decide
+  rw [this]
+
+/-- no parenthesised announce in a description without one -/
+theorem hasParenAnnounce_plain (d : Str) (hd : ∀ w ∈ announceVariants, contains (lower d) ('(' :: lower w) = false) :
+    hasParenAnnounce d = false := by
+  unfold hasParenAnnounce
+  have : locateVariant d (announceVariants.map (fun v => '(' :: v)) = none := by
+    apply C01.locateVariant_none
+    intro v hv
+    obtain ⟨w, hw, rfl⟩ := List.mem_map.mp hv
+    have hl : lower ('(' :: w) = '(' :: lower w := by rw [lower_cons]; congr 1
+    rw [hl]
+    exact find_none_of_not_contains _ _ (hd w hw)
+  rw [this]; rfl
+
 /-- reading back what the emitter appended: generalisation of `C01.extract_*_roundtrip` to any value text and any
-    declared type for which the value cascade answers `v` -/
-theorem extract_emitted (b r : Str) (typ : Option Str) (v : Default) (hb : C01.GoodBase b) (hparen : '(' ∉ lower r)
+    declared type for which the value cascade answers `v`, and to descriptions with parentheses -/
+theorem extract_emitted (b r : Str) (typ : Option Str) (v : Default) (hb : NoEarly C01.ann (lower b ++ [' ']))
+    (hpa : hasParenAnnounce (b ++ defaultsTo ++ r) = false)
     (htake : takeDefault 0 r = r) (hstrip : stripChars r [' ', '\t', '`'] = r) (hparse : parseDefaultText r typ = .ok v) :
     extractDefault (b ++ defaultsTo ++ r) typ true = .ok (b ++ defaultsTo ++ r, some v) := by
   unfold extractDefault
-  have hp : '(' ∉ lower (b ++ defaultsTo ++ r) := by
-    rw [C01.lower_append, C01.lower_append]
-    intro hm
-    simp only [List.mem_append] at hm
-    rcases hm with (h1 | h2) | h3
-    · exact hb.1 h1
-    · revert h2; rw [C01.lower_defaultsTo]; decide
-    · exact hparen h3
-  rw [C01.hasParenAnnounce_false _ hp]
+  rw [hpa]
   simp only [Bool.false_eq_true, if_false]
-  rw [C01.locate_emitted b r hb]
+  rw [locate_emitted' b r hb]
   simp only [C01.drop_emitted, htake, hstrip, hparse, if_true]
 
 /-- nothing is read from a description without an announce phrase -/
-theorem extract_plain (d : Str) (typ : Option Str) (edd : Bool) (hparen : '(' ∉ lower d)
+theorem extract_plain (d : Str) (typ : Option Str) (edd : Bool) (hpa : hasParenAnnounce d = false)
     (hann : ∀ v ∈ announceVariants, find (lower d) (lower v) = none) :
     extractDefault d typ edd = .ok (d, Option.none) := by
   unfold extractDefault
-  rw [C01.hasParenAnnounce_false _ hparen, C01.locateVariant_none d announceVariants hann]
+  rw [hpa, C01.locateVariant_none d announceVariants hann]
   simp
-
 
 /-! ### the value texts of integers and booleans -/
 
@@ -196,7 +293,7 @@ theorem extract_docText (p : Param) (edd : Bool) (typ : Option Str) (hp : GoodEn
     have g := hp.doc d hd
     simp only []
     cases hv : (if edd then p.default else Option.none) with
-    | none => exact extract_plain d typ edd g.noParen g.noAnn
+    | none => exact extract_plain d typ edd (hasParenAnnounce_plain d g.noParenAnn) g.noAnn
     | some v =>
       have hv' : p.default = some v ∧ edd = true := by
         cases edd
@@ -207,9 +304,11 @@ theorem extract_docText (p : Param) (edd : Bool) (typ : Option Str) (hp : GoodEn
       have hg := (hp.dflt v hv').1
       cases v with
       | int i =>
-        exact extract_emitted _ _ typ _ g.goodBase (paren_notin_int i) (takeDefault_int i) (stripChars_int i) (parse_int i typ (hc _ hv'))
+        exact extract_emitted _ _ typ _ g.noEarly (hasParenAnnounce_emitted d _ g.noParenAnn (paren_notin_int i)) (takeDefault_int i)
+          (stripChars_int i) (parse_int i typ (hc _ hv'))
       | bool b =>
-        exact extract_emitted _ _ typ _ g.goodBase (by cases b <;> decide) (by cases b <;> decide) (by cases b <;> decide)
+        exact extract_emitted _ _ typ _ g.noEarly (hasParenAnnounce_emitted d _ g.noParenAnn (by cases b <;> decide))
+          (by cases b <;> decide) (by cases b <;> decide)
           (parse_bool b typ (hc _ hv'))
       | float _ => exact absurd hg (by simp [GoodDefault])
       | str _ => exact absurd hg (by simp [GoodDefault])
@@ -376,22 +475,14 @@ theorem sntOptSuffix_good (typ : Option Str) (doc : Option Str) (dflt : Option D
   | none => rfl
   | some t => simp only [ht t rfl, Bool.false_eq_true, if_false]
 
-theorem sntDoc_good (typ : Option Str) (doc' : Str) (dflt : Option Default) (hd : GoodText doc')
-    (hpar : startsWith doc' ['('] = false) :
+theorem sntDoc_good (typ : Option Str) (doc' : Str) (dflt : Option Default) (hd : GoodText doc') :
     sntDoc false { typ := typ, doc := some doc', default := dflt } = .ok { typ := typ, doc := some doc', default := dflt } := by
   unfold sntDoc
-  have hopt2 : startsWith doc' ['(','O','p','t','i','o','n','a','l',')'] = false := by
-    cases doc' with
-    | nil => rfl
-    | cons c cs =>
-      unfold startsWith at hpar ⊢
-      simp only [List.isPrefixOf, Bool.and_true] at hpar
-      simp only [List.isPrefixOf, hpar, Bool.false_and]
-  simp only [docNorm doc' hd, lit_Optional, lit_pOptional, hd.noOpt, hopt2, Bool.or_self, Bool.false_and, Bool.false_eq_true, if_false]
+  simp only [docNorm doc' hd, lit_Optional, lit_pOptional, hd.noOpt, hd.noPOpt, Bool.or_self, Bool.false_and, Bool.false_eq_true, if_false]
 
 theorem setNameAndType_good (name : Str) (typ : Option Str) (doc' : Str) (dflt : Option Default)
     (hn : GoodName name) (ht : ∀ t, typ = some t → endsWith t ", optional".toList = false)
-    (hd : GoodText doc') (hpar : startsWith doc' ['('] = false)
+    (hd : GoodText doc')
     (hx : extractDefault doc' Option.none true = .ok (doc', dflt)) (hv : ∀ v, dflt = some v → GoodDefault v) :
     setNameAndType name { typ := typ, doc := some doc', default := dflt }
       = .ok { typ := typAfter typ dflt, doc := some doc', default := dflt } := by
@@ -408,6 +499,6 @@ theorem setNameAndType_good (name : Str) (typ : Option Str) (doc' : Str) (dflt :
       | false => rfl
       | true => simp at hb; exact absurd hb hd.ne
     simp only [hne, Bool.false_eq_true, if_false]
-  rw [this, sntDoc_good _ _ _ hd hpar]
+  rw [this, sntDoc_good _ _ _ hd]
 
 end DocRT
